@@ -60,6 +60,59 @@ def regen(e):
     return ob, names
 
 
+def regen_decompiled(e):
+    """the same question for the tree shape the *decompiler* hands to the regenerator (generator/lambda queries): folded
+    negative constants, FORMAT_VALUE shapes etc.  D = decompile(lambda: e); compare reparse(ast2src(D)) with D itself,
+    so that a decompiler defect (C03) is not reported here."""
+    import copy
+    from pony.orm.asttranslation import ast2src
+    from pony.orm.decompiling import decompile
+    name = 'regen-decompiled: %s' % e
+    try:
+        fn = eval('lambda: (%s)' % e, {})
+        D = decompile(fn)[0]
+        body = D.body if isinstance(D, ast.Lambda) else D
+        ref = copy.deepcopy(body)
+        for n in ast.walk(ref):
+            if hasattr(n, 'src'): del n.src
+        compile(ast.fix_missing_locations(ast.Expression(copy.deepcopy(ref))), '<d>', 'eval')
+    except Exception as ex:
+        return Ob(name, 'z3', REJECTED, detail='decompile: %s: %s' % (type(ex).__name__, str(ex)[:80]))
+    try:
+        src2 = ast2src(body)
+    except Exception as ex:
+        return Ob(name, 'z3', REJECTED, detail='%s: %s' % (type(ex).__name__, str(ex)[:80]))
+    try:
+        tree2 = ast.parse(src2, mode='eval').body
+    except SyntaxError:
+        return Ob(name, 'z3', REJECTED, detail='regenerated source does not compile: %r' % src2)
+    try:
+        verdict, names, model, how, dt = expreq.differ(ref, tree2, 'value')
+    except expreq.NotEncodable as ex:
+        return Ob(name, 'z3', INCONCLUSIVE, detail='not encodable: %s' % ex)
+    if verdict == 'unsat': return Ob(name, 'z3', HOLDS, detail=src2, time_s=dt)
+    if verdict == 'unknown': return Ob(name, 'z3', INCONCLUSIVE, detail='solver unknown', time_s=dt)
+    if verdict == 'spurious':
+        return Ob(name, 'z3', INCONCLUSIVE, detail='only non-reproducing models: %r | %s' % (src2, how), time_s=dt)
+    ob = Ob(name, 'z3', CEX, detail='decompiled tree %r regenerated as %r | %s' % (ast.unparse(ref), src2, how),
+            cex={'expr': e, 'decompiled': ast.unparse(ref), 'regenerated': src2, 'names': names}, time_s=dt, reproduced=True,
+            key='regen-decompiled:' + classify_decompiled(ref))
+    ob.replay = ('from pony.orm.asttranslation import ast2src\nfrom pony.orm.decompiling import decompile\nimport ast\ne = %r\n'
+                 'D = decompile(eval("lambda: (" + e + ")"))[0].body\nprint("source     :", e)\nprint("decompiled :", ast.dump(D)[:300])\n'
+                 'print("regenerated:", ast2src(D))\nprint("differ for", %r, %r)\nraise SystemExit(1)\n' % (e, names, how))
+    return ob
+
+
+def classify_decompiled(tree):
+    for n in ast.walk(tree):
+        if isinstance(n, ast.BinOp) and isinstance(n.op, ast.Pow) and isinstance(n.left, ast.Constant) \
+                and isinstance(n.left.value, (int, float)) and n.left.value < 0:
+            return 'negative-constant-base-of-power'
+    for n in ast.walk(tree):
+        if isinstance(n, ast.FormattedValue) and n.format_spec is not None: return 'fstring-format-spec'
+    return classify(tree)
+
+
 _db = None
 
 
@@ -91,6 +144,12 @@ class Obj(object):
     def __len__(self): return 2
 
 
+def _r(v):
+    if isinstance(v, int) and not isinstance(v, bool) and abs(v) >= 10 ** 40: return '<int of %d bits>' % v.bit_length()
+    try: return repr(v)[:200]
+    except Exception: return '<unprintable %s>' % type(v).__name__
+
+
 def tie(e, scope_vals):
     """run the real pipeline; the single SQL parameter must equal eval(e)"""
     from pony.orm import core, db_session
@@ -111,31 +170,57 @@ def tie(e, scope_vals):
     if isinstance(expected, bool) or not isinstance(expected, int) or abs(expected) >= 2 ** 62:
         return None
     obs = []
-    for form in ('string', 'generator'):
+    # and/or/not/conditional expressions used as VALUES inside a decompiled condition are C03's known findings: such
+    # expressions are tied through the string form only (the regeneration step itself is decided by z3 for them above)
+    jumpy = any(isinstance(n, (ast.BoolOp, ast.IfExp)) or (isinstance(n, ast.UnaryOp) and isinstance(n.op, ast.Not))
+                for n in ast.walk(ast.parse(e, mode='eval')))
+    for form in ('string',) if jumpy else ('string', 'generator', 'closure', 'shadow'):
         name = 'tie[%s]: %s' % (form, e)
+        old = signal.signal(signal.SIGALRM, _alarm)
+        signal.setitimer(signal.ITIMER_REAL, 3.0)      # a wrongly bound scope can make `a ** b` astronomically expensive
         try:
             with db_session:
                 if form == 'string':
                     q = core.select('(x for x in T if x.a == (%s))' % e, {'T': db.T}, dict(scope))
+                elif form == 'closure':
+                    # the lambda's free variables live in closure cells; the frame that applies it has locals of the same names
+                    ns = {}
+                    exec('def make(a, b, c, d, f):\n    return lambda x: x.a == (%s)\n'
+                         'def apply(T, fn, a, b, c, d, f):\n    return T.select(fn)\n' % e, ns)
+                    fn = ns['make'](scope.get('a'), scope.get('b'), scope.get('c'), scope.get('d'), scope['f'])
+                    q = ns['apply'](db.T, fn, 101, 102, 103, 104, None)
+                elif form == 'shadow':
+                    # a generator inside a function whose locals shadow module-level names of the same spelling
+                    ns = {'a': 201, 'b': 202, 'c': 203, 'd': 204, 'f': None}
+                    exec('def run(T, select, a, b, c, d, f):\n    return select(x for x in T if x.a == (%s))\n' % e, ns)
+                    q = ns['run'](db.T, core.select, scope.get('a'), scope.get('b'), scope.get('c'), scope.get('d'), scope['f'])
                 else:
                     g = eval('(x for x in T if x.a == (%s))' % e, {'T': db.T}, dict(scope))
                     q = core.select(g)
                 sql, args, _, _ = q._construct_sql_and_arguments()
+        except TimeoutError:
+            obs.append(Ob(name, 'concrete-tie', CEX, detail='the pipeline did not finish in 3 s although eval(e) in the same scope is instant',
+                          cex={'expr': e, 'form': form}, reproduced=True, key='tie:timeout',
+                          replay='# see checks/c04.py tie(); expression %r form %s: evaluation inside pony did not terminate\nraise SystemExit(1)\n' % (e, form)))
+            continue
         except Exception as ex:
             obs.append(Ob(name, 'concrete-tie', REJECTED, detail='%s: %s' % (type(ex).__name__, str(ex)[:80])))
             continue
+        finally:
+            signal.setitimer(signal.ITIMER_REAL, 0)
+            signal.signal(signal.SIGALRM, old)
         args = list(args.values()) if isinstance(args, dict) else list(args)
         if len(args) == 1 and args[0] == expected:
-            obs.append(Ob(name, 'concrete-tie', HOLDS, detail='parameter %r' % (args[0],)))
+            obs.append(Ob(name, 'concrete-tie', HOLDS, detail='parameter %s' % _r(args[0])))
         elif len(args) == 0 and str(expected) in sql:
             obs.append(Ob(name, 'concrete-tie', HOLDS, detail='inlined constant'))
         elif len(args) != 1:
             obs.append(Ob(name, 'concrete-tie', INCONCLUSIVE, detail='expression was split into %d parameters: %s' % (len(args), sql)))
         else:
-            ob = Ob(name, 'concrete-tie', CEX, detail='bound %r, Python evaluates %r' % (args[0], expected),
-                    cex={'expr': e, 'scope': {k: (v.v if isinstance(v, Obj) else v) for k, v in scope_vals.items()}, 'bound': repr(args[0]), 'python': expected},
+            ob = Ob(name, 'concrete-tie', CEX, detail='bound %s, Python evaluates %s' % (_r(args[0]), _r(expected)),
+                    cex={'expr': e, 'scope': {k: (v.v if isinstance(v, Obj) else v) for k, v in scope_vals.items()}, 'bound': _r(args[0]), 'python': expected, 'form': form},
                     reproduced=True, key='tie:' + classify(ast.parse(e, mode='eval').body))
-            ob.replay = '# see checks/c04.py tie(); expression %r scope %r bound %r python %r\nraise SystemExit(1)\n' % (e, ob.cex['scope'], args[0], expected)
+            ob.replay = '# see checks/c04.py tie(); expression %r scope %r bound %s python %r\nraise SystemExit(1)\n' % (e, ob.cex['scope'], _r(args[0]), expected)
             obs.append(ob)
     return obs
 
@@ -148,6 +233,8 @@ def run(tier, seed, only=None):
                  'query pipeline and the bound SQL parameter compared with eval().')
     rep.fn(A.PythonTranslator.postIfExp, A.PythonTranslator.postCompare, A.PythonTranslator.postJoinedStr, A.PythonTranslator.postPow,
            A.PythonTranslator.postSubscript, A.PythonTranslator.postCall, A.priority, A.ast2src, A.PreTranslator.dispatch, A.create_extractors)
+    from pony.orm import core as _core
+    rep.fn(_core.extract_vars, _core.get_globals_and_locals)
     atoms = exprgen.ATOMS_EXT
     rng = random.Random(seed)
     l1 = exprgen.level1(atoms, ext=True)
@@ -171,6 +258,9 @@ def run(tier, seed, only=None):
         n += 1
         ob, names = regen(e)
         rep.add(ob)
+        ob2 = regen_decompiled(e)
+        rep.add(ob2)
+        if ob2.verdict == CEX: rep.sample({'program': e, 'counterexample': ob2.cex, 'key': ob2.key}, limit=4)
         if ob.verdict == CEX: rep.sample({'program': e, 'counterexample': ob.cex, 'key': ob.key}, limit=4)
         scopes = [default]
         if names and all(abs(v) <= 1000 for v in names.values()): scopes.insert(0, {k: names.get(k, 1) for k in 'abcd'})
